@@ -49,6 +49,106 @@ var genesisDefaults = map[string]string{
 
 func init() { register("C17", "other", runC17) }
 
+// optFlow describes how InitGenesis stores an optional field: either two setter calls
+// (`if f != nil { Set(*f) } else { Set(DEFAULT) }`) or one setter call on a local that
+// starts as DEFAULT and is overwritten by *f (`v := DEFAULT; if f != nil { v = *f }; Set(v)`).
+type optFlow struct {
+	given      ssa.Instruction   // the call / the store that carries *genState.F
+	defaults   []ssa.Instruction // the calls storing DEFAULT (two-call shape)
+	set        *ssa.Call         // the setter call that consumes the given value
+	hasDefault bool
+	why        string
+}
+
+func optionalInit(ci *FC, f, def string) optFlow {
+	var fl optFlow
+	calls := ci.calls("k.Set" + f)
+	if f == "NextAvailableNonce" && len(calls) == 0 {
+		calls = ci.calls("k.SetNextAvailableNonce")
+	}
+	givenT := "*p2." + f
+	var single []*ssa.Call
+	for _, call := range calls {
+		switch arg := ci.args(call)[1]; arg {
+		case givenT:
+			if fl.given != nil {
+				fl.given, fl.why = nil, "several sites store the given value"
+				return fl
+			}
+			fl.given, fl.set = call, call
+		case def:
+			fl.defaults = append(fl.defaults, call)
+			fl.hasDefault = true
+		default:
+			single = append(single, call)
+		}
+	}
+	if fl.given != nil || len(single) != 1 {
+		if fl.given == nil {
+			fl.why = fmt.Sprintf("%d setter calls, none with argument %s", len(calls), givenT)
+		}
+		return fl
+	}
+	// one call on a local variable
+	call := single[0]
+	want := phiOf([]*Term{mk("const", givenT), mk("const", def)}).String()
+	got := ci.args(call)[1]
+	if got != want {
+		fl.why = "stored value is " + got + ", expected " + want
+		return fl
+	}
+	ld, ok := call.Call.Args[2].(*ssa.UnOp)
+	if !ok {
+		fl.why = "stored value is not a local variable"
+		return fl
+	}
+	alloc, ok := ld.X.(*ssa.Alloc)
+	if !ok {
+		fl.why = "stored value is not a local variable"
+		return fl
+	}
+	for _, ref := range *alloc.Referrers() {
+		if st, ok := ref.(*ssa.Store); ok && st.Addr == ssa.Value(alloc) && ci.term(st.Val, st) == givenT {
+			if fl.given != nil {
+				fl.given, fl.why = nil, "several stores of the given value"
+				return fl
+			}
+			fl.given = st
+		}
+	}
+	fl.set = call
+	fl.hasDefault = fl.given != nil
+	return fl
+}
+
+// presentUsesGiven: on the side of the branch where the field is present, the value that
+// reaches the store is the given one: in the two-call shape no default call can execute
+// there; in the one-call shape the setter is unreachable there without the overwrite.
+func (fl optFlow) presentUsesGiven(ci *FC, g []Atom) bool {
+	edges, matched := passEdges(ci.ifs, g)
+	if len(matched) == 0 {
+		return false
+	}
+	fi := ci.p.info(ci.fn)
+	for _, ii := range matched {
+		b := ii.in.Block()
+		for slot, s := range b.Succs {
+			if !edges[Edge{b, slot, ii.site}] {
+				continue
+			}
+			for _, d := range fl.defaults {
+				if fi.blockReachesAvoiding(s, d, nil) {
+					return false
+				}
+			}
+			if fl.set != nil && fl.given != ssa.Instruction(fl.set) && fi.blockReachesAvoiding(s, fl.set, []ssa.Instruction{fl.given}) {
+				return false
+			}
+		}
+	}
+	return true
+}
+
 var getterRe = regexp.MustCompile(`k\.([A-Za-z]+)\(ctx\)`)
 
 func runC17(p *Prog, r *Report, tier string) {
@@ -128,25 +228,16 @@ func runC17(p *Prog, r *Report, tier string) {
 				fmt.Sprintf("InitGenesis does not store every element of genState.%s (values: %v, whole-list loop: %v)", f, vals, whole))
 		}
 		if def, ok := genesisDefaults[f]; ok {
-			hasDef := false
-			for _, v := range vals {
-				if v == "k.cdc.MustMarshal(&"+def+")" {
-					hasDef = true
-				}
-			}
-			r.check(hasDef, "defaults", "defaults/init/"+f, ci.pos(), "absent "+f+" defaults to "+def, fmt.Sprintf("default for absent %s is not %s (values: %v)", f, def, vals))
+			flow := optionalInit(ci, f, def)
+			r.check(flow.hasDefault, "defaults", "defaults/init/"+f, ci.pos(), "absent "+f+" defaults to "+def, fmt.Sprintf("default for absent %s is not %s (%s; values: %v)", f, def, flow.why, vals))
 			// the given value is used exactly when the field is non-nil
 			g := []Atom{A("!(nil == p2." + f + ")")}
-			var given []ssa.Instruction
-			for _, call := range ci.calls("k.Set" + f) {
-				if strings.Contains(ci.args(call)[1], "p2."+f) {
-					given = append(given, call)
-				}
-			}
-			if len(given) == 1 {
-				ci.requireCut("defaults", "given-"+f+"-only-when-present", g, given)
+			if flow.given != nil {
+				ci.requireCut("defaults", "given-"+f+"-only-when-present", g, []ssa.Instruction{flow.given})
+				r.check(flow.presentUsesGiven(ci, g), "defaults", "defaults/InitGenesis/present-"+f+"-is-stored", p.instrPos(flow.given),
+					"a present "+f+" is what gets stored", "a present "+f+" can be replaced by the default before it is stored")
 			} else {
-				r.fail("defaults", "defaults/InitGenesis/given-"+f, ci.pos(), fmt.Sprintf("%d sites store the given %s", len(given), f))
+				r.fail("defaults", "defaults/InitGenesis/given-"+f, ci.pos(), "no single site stores the given "+f+" ("+flow.why+")")
 			}
 		}
 	}
@@ -299,6 +390,14 @@ func runC17(p *Prog, r *Report, tier string) {
 		}
 		// a hit rejects: success return is cut by "no hit", and the hit arm is an error exit
 		hit := lk[0].m + "[" + key + "]#1"
+		if lookup := lk[0].in.(*ssa.Lookup); !lookup.CommaOk {
+			// map[string]bool form: `if seen[key] {dup}; seen[key] = true` — the element itself is
+			// the hit flag, which requires the inserted value to be the constant true
+			hit = cv.term(lookup, lookup)
+			val := cv.term(up[0].in.(*ssa.MapUpdate).Value, up[0].in)
+			r.check(val == "true", "dup-detection", "dup-detection/"+list+"/inserted-flag", p.instrPos(up[0].in),
+				"the flag inserted is true", "the duplicate flag inserted is "+val+", not true: a later lookup does not report a hit")
+		}
 		g := []Atom{A("!" + hit)}
 		// every loop iteration passes the test before the insert
 		cv.requireCut("dup-detection", list+"/insert-behind-test", g, []ssa.Instruction{up[0].in})
